@@ -1,6 +1,7 @@
 /-
-C11, part B — array operations that the manual documents as raising an exception when misused, over a pool of
-passive `Array<1|2, int|Real>` objects (`intVector`, `intMatrix`, `Vector`, `Matrix`).
+C11, part B — array operations that the manual documents as raising an exception when misused, over three pools:
+passive `Array<1..4, int|Real>` objects (`State.arrs`; `intVector`, `intMatrix`, `Vector`, `Matrix`, …), FixedArray /
+SymmMatrix / TridiagMatrix objects (`State.specs`) and active arrays `Array<1|2,Real,true>` inside a recording (`State.acts`).
 
 An array is its extents and its logical content in row-major index order (what `operator()` shows), so the
 model is independent of strides, padding and storage order.  Every operation returns the new pool *and*
@@ -17,6 +18,13 @@ Transcribed (code-shaped, tests in the order the C++ makes them) from
   include/adept/matmul.h      check_inner_dimensions, matmul_ (2,1) (2,2) (1,2)
   include/adept/RangeIndex.h  get_index_with_len (ADEPT_BOUNDS_CHECKING)
   adept/inv.cpp               inv(const Array<2,Type,false>&)  (the non-square test only; see `Op.inv`)
+  adept/solve.cpp             solve(A, b), solve(A, B): the shape tests
+  include/adept/reduce.h      reduce_inactive, reduce_dimension, reduce_active, the two-argument forms of rank-1
+                              expressions, find, minloc, maxloc, dot_product, diag_vector(Expression), diag_matrix(Expression)
+  include/adept/outer_product.h, spread.h   get_dimensions_
+  include/adept/where.h       Where::operator=(EitherOr)
+  include/adept/FixedArray.h  operator=(Expression), where / assign_conditional, diag_vector, submatrix_on_diagonal
+  include/adept/SpecialMatrix.h   resize(Index), resize(Index,Index), operator=(Expression), link, submatrix_on_diagonal
 Core Lean only.
 -/
 namespace Adept.Misuse
@@ -42,18 +50,50 @@ def Err.name : Err → String
 
 structure Arr where
   dbl : Bool                -- element type Real (true) or int (false)
-  dims : List Nat           -- extents; length = rank (1 or 2); the empty array has every extent 0
+  dims : List Nat           -- extents; length = rank (1 … 4); the empty array has every extent 0
   vals : List Int           -- logical content, row-major index order; length = product of the extents
+deriving Repr, DecidableEq
+
+/-- FixedArray<Real,false,3> / FixedArray<Real,false,2,3>, SymmMatrix, TridiagMatrix (all passive, Real) -/
+inductive SCls | fix | sym | tri
+deriving Repr, DecidableEq
+
+/-- a special object: for `sym` / `tri`, `a.dims = [n, n]` and `a.vals` is the full logical `n × n` content -/
+structure SArr where
+  cls : SCls
+  a : Arr
+deriving Repr, DecidableEq
+
+/-- one row of a Jacobian, sparse: (variable, coefficient); read through `Der.coef` only -/
+abbrev Der := List (Nat × Int)
+
+/-- an active array while a recording is going on: values, and for every element its derivative with respect to the
+    variables of the recording (`rec` gives every element of every active array a variable of its own) -/
+structure AArr where
+  a : Arr
+  der : List Der            -- one row per element
+  inp : Bool := false       -- the object (its gradient indices) is unchanged since the last `rec`
+  vars : List Nat := []     -- then: the variables of its elements
 deriving Repr, DecidableEq
 
 structure State where
   bounds : Bool := false    -- built with ADEPT_BOUNDS_CHECKING
   arrs : List (Nat × Arr) := []
+  specs : List (Nat × SArr) := []
+  acts : List (Nat × AArr) := []
+  nvar : Nat := 0
 deriving Repr, DecidableEq
 
 def State.get? (s : State) (k : Nat) : Option Arr := (s.arrs.find? (·.1 = k)).map (·.2)
+def State.getS? (s : State) (k : Nat) : Option SArr := (s.specs.find? (·.1 = k)).map (·.2)
+def State.getA? (s : State) (k : Nat) : Option AArr := (s.acts.find? (·.1 = k)).map (·.2)
+/-- a handle names one object: storing under `k` in one pool removes `k` from the others -/
 def State.put (s : State) (k : Nat) (a : Arr) : State :=
-  { s with arrs := (k, a) :: s.arrs.filter (·.1 ≠ k) }
+  { s with arrs := (k, a) :: s.arrs.filter (·.1 ≠ k), specs := s.specs.filter (·.1 ≠ k), acts := s.acts.filter (·.1 ≠ k) }
+def State.putS (s : State) (k : Nat) (a : SArr) : State :=
+  { s with specs := (k, a) :: s.specs.filter (·.1 ≠ k), arrs := s.arrs.filter (·.1 ≠ k), acts := s.acts.filter (·.1 ≠ k) }
+def State.putA (s : State) (k : Nat) (a : AArr) : State :=
+  { s with acts := (k, a) :: s.acts.filter (·.1 ≠ k), arrs := s.arrs.filter (·.1 ≠ k), specs := s.specs.filter (·.1 ≠ k) }
 
 def Arr.rank (a : Arr) : Nat := a.dims.length
 /-- `Array::empty()`: `dimensions_[0] == 0` -/
@@ -63,6 +103,15 @@ def Arr.sameKind (a b : Arr) : Bool := a.dbl == b.dbl && a.rank == b.rank
 
 /-- the harness fills freshly allocated (uninitialised) storage with this pattern -/
 def pattern (seed : Int) (n : Nat) : List Int := (List.range n).map fun (t : Nat) => (seed + 3 * Int.ofNat t) % 7 - 3
+
+/-! ### row-major index arithmetic for any rank -/
+
+/-- flat index of the multi-index `idx` in an array of extents `dims` -/
+def encode (dims idx : List Nat) : Nat := (List.zip dims idx).foldl (fun acc p => acc * p.1 + p.2) 0
+
+/-- multi-index of the flat index `t` -/
+def decode (dims : List Nat) (t : Nat) : List Nat :=
+  (dims.foldr (fun d (acc : List Nat × Nat) => ((acc.2 % d) :: acc.1, acc.2 / d)) ([], t)).1
 
 /-! ### creation and resizing -/
 
@@ -364,6 +413,8 @@ def getElem (bounds : Bool) (a : Arr) (idx : List Int) : Except Err Int :=
   else match idx, a.dims with
     | [i], [_] => .ok (a.vals.getD i.toNat 0)
     | [i, j], [_, _] => .ok (at2 a i.toNat j.toNat)
+    | [_, _, _], [_, _, _] => .ok (a.vals.getD (encode a.dims (idx.map Int.toNat)) 0)
+    | [_, _, _, _], [_, _, _, _] => .ok (a.vals.getD (encode a.dims (idx.map Int.toNat)) 0)
     | _, _ => .error .bad
 
 /-- `v(range(b, e))` on a vector: with bounds checking both ends must be valid indices; a reversed range would
@@ -379,6 +430,320 @@ def reshape2 (a : Arr) (r c : Int) : Except Err View :=
   if r * c ≠ (a.dims.getD 0 0 : Int) then .error .invalid_dimension
   else if r < 0 ∨ c < 0 then .error .invalid_dimension
   else .ok ([r.toNat, c.toNat], a.vals)
+
+
+/-! ### expressions that are not assignments: reductions (reduce.h) -/
+
+inductive RedFn | sum | mean | product | minval | maxval | norm2 | all | any | count
+deriving Repr, DecidableEq
+
+/-- a result that need not be an integer: `mean` is a quotient, `norm2` a square root (printed by the driver as the
+    correctly rounded double) -/
+inductive Num
+  | int (v : Int)
+  | rat (n : Int) (d : Nat)
+  | sqrt (n : Nat)
+deriving Repr, DecidableEq
+
+def RedFn.isBool : RedFn → Bool
+  | .all | .any | .count => true
+  | _ => false
+
+/-- the reduction of a non-empty list (for `all` / `any` / `count`: of the 0/1 values of the comparison) -/
+def redList (fn : RedFn) (vals : List Int) : Num :=
+  match fn with
+  | .sum => .int (vals.foldl (· + ·) 0)
+  | .mean => .rat (vals.foldl (· + ·) 0) vals.length
+  | .product => .int (vals.foldl (· * ·) 1)
+  | .minval => .int (vals.foldl min (vals.headD 0))
+  | .maxval => .int (vals.foldl max (vals.headD 0))
+  | .norm2 => .sqrt (vals.foldl (fun s v => s + (v * v).toNat) 0)
+  | .all => .int (if vals.all (· ≠ 0) then 1 else 0)
+  | .any => .int (if vals.any (· ≠ 0) then 1 else 0)
+  | .count => .int ((vals.filter (· ≠ 0)).length)
+
+/-- `reduce_inactive`: an invalid expression ⇒ `size_mismatch`; an empty one gives 0 (whatever the function) -/
+def reduceWhole (fn : RedFn) (d : Option (List Nat)) (vals : List Int) : Except Err Num :=
+  match d with
+  | none => .error .size_mismatch
+  | some d => if d.headD 0 == 0 then .ok (.int 0) else .ok (redList fn vals)
+
+/-- flat indices of the `t`-th strip along dimension `dim` -/
+def stripIdx (dims : List Nat) (dim : Nat) (t : Nat) : List Nat :=
+  let oi := decode (dims.eraseIdx dim) t
+  (List.range (dims.getD dim 0)).map fun q => encode dims (oi.take dim ++ [q] ++ oi.drop dim)
+
+/-- result of a reduction along a dimension: a scalar (rank-1 argument) or an array of one rank less -/
+inductive RedOut
+  | scalar (x : Num)
+  | arr (dims : List Nat) (vals : List Num)
+deriving Repr, DecidableEq
+
+/-- `fn(expr, dim)`.  Rank 1 (the two-argument forms of DEFINE_REDUCE_FUNCTION): `dim ≠ 0` ⇒ `invalid_dimension`, tested
+    before the expression is looked at.  Rank > 1 (`reduce_dimension`): invalid expression ⇒ `size_mismatch`; empty ⇒ the
+    empty array; `dim` outside `0 … rank−1` ⇒ `invalid_dimension`.  (The pinned tree tests `dim ≥ rank` only and overruns
+    a stack buffer for a negative `dim`: finding reported by the C11 check; the model transcribes the tree with the test
+    completed.) -/
+def reduceDim (fn : RedFn) (rank : Nat) (d : Option (List Nat)) (vals : List Int) (dim : Int) : Except Err RedOut :=
+  if rank = 1 then
+    if dim ≠ 0 then .error .invalid_dimension
+    else match reduceWhole fn d vals with
+      | .ok x => .ok (.scalar x)
+      | .error e => .error e
+  else match d with
+    | none => .error .size_mismatch
+    | some d =>
+      if d.headD 0 == 0 then .ok (.arr (List.replicate (rank - 1) 0) [])
+      else if dim < 0 ∨ dim ≥ (rank : Int) then .error .invalid_dimension
+      else
+        let od := d.eraseIdx dim.toNat
+        .ok (.arr od ((List.range (prod od)).map fun t => redList fn ((stripIdx d dim.toNat t).map fun i => vals.getD i 0)))
+
+/-- the 0/1 values of `x > y` -/
+def gtVals (x y : Arr) : List Int := List.zipWith (fun p q => if p > q then 1 else 0) x.vals y.vals
+
+/-! ### minloc, maxloc, find, dot_product -/
+
+/-- index of the first smallest (largest) element; 0 for an empty list -/
+def locList (isMin : Bool) (vals : List Int) : Nat :=
+  ((List.range vals.length).foldl (fun (best : Nat × Int) i =>
+      let v := vals.getD i 0
+      if (if isMin then v < best.2 else v > best.2) then (i, v) else best) (0, vals.headD 0)).1
+
+/-- `minloc` / `maxloc` of a rank-1 expression: invalid ⇒ `size_mismatch` -/
+def locOp (isMin : Bool) (d : Option (List Nat)) (vals : List Int) : Except Err Nat :=
+  match d with
+  | none => .error .size_mismatch
+  | some _ => .ok (locList isMin vals)
+
+/-- `find(x > y)`: the indices of the true elements -/
+def findOp (x y : Arr) : Except Err View :=
+  if x.dims != y.dims then .error .size_mismatch
+  else
+    let ix := (List.range x.vals.length).filter fun i => x.vals.getD i 0 > y.vals.getD i 0
+    .ok ([ix.length], ix.map Int.ofNat)
+
+/-- `dot_product(x, y)` is `sum(x * y)` -/
+def dotOp (x y : Arr) : Except Err Int :=
+  match reduceWhole .sum (exprDims x y) (exprVals .mul x y) with
+  | .ok (.int v) => .ok v
+  | .ok _ => .error .bad
+  | .error e => .error e
+
+/-! ### outer_product, spread, diag_vector / diag_matrix of an expression -/
+
+/-- `T = outer_product(x + y, z)`: the sum is evaluated into a vector first (`size_mismatch` if its operands disagree);
+    an outer product without elements is an invalid expression (`get_dimensions_` returns false) -/
+def outerOp (t x y z : Arr) : Except Err Arr :=
+  if x.dims != y.dims then .error .size_mismatch
+  else if x.isEmpty || z.isEmpty then .error .size_mismatch
+  else
+    let e := exprVals .add x y
+    assign t (some [e.length, z.vals.length]) (e.flatMap fun p => z.vals.map fun r => p * r)
+
+/-- `T = spread<D>(x + y, n)`: extents of `x` with `n` inserted at position `D` (and `dims[0] = 0` if `n = 0`); an empty
+    target is resized to them (`resize`: a negative `n` ⇒ `invalid_dimension`, a zero extent ⇒ stays empty) -/
+def spreadDims (x : Arr) (D : Nat) (n : Int) : List Int :=
+  let ed0 : List Int := (x.dims.take D).map Int.ofNat ++ [n] ++ (x.dims.drop D).map Int.ofNat
+  if n = 0 then ed0.set 0 0 else ed0
+
+def spreadOp (t x y : Arr) (D : Nat) (n : Int) : Except Err Arr :=
+  if x.dims != y.dims then .error .size_mismatch
+  else
+    let ed := spreadDims x D n
+    let e := exprVals .add x y
+    let inner := prod (x.dims.drop D)
+    let vals := (List.range (prod (x.dims.take D))).flatMap fun o =>
+      (List.range n.toNat).flatMap fun _ => (e.drop (o * inner)).take inner
+    if t.isEmpty then
+      match resizeLoop ed with
+      | .error err => .error err
+      | .ok none => .ok t
+      | .ok (some ds) => .ok { t with dims := ds, vals := vals }
+    else if ed != t.dims.map Int.ofNat then .error .size_mismatch
+    else .ok { t with vals := vals }
+
+/-- length of the diagonal `o` of an `R × C` expression (negative: no such diagonal) -/
+def diagLen (R C : Nat) (o : Int) : Int := if o ≥ 0 then min (R : Int) ((C : Int) - o) else min ((R : Int) + o) C
+
+/-- flat indices of the elements of diagonal `o` -/
+def diagIdx (C : Nat) (o : Int) (len : Nat) : List Nat :=
+  (List.range len).map fun j => if o ≥ 0 then j * C + j + o.toNat else (j + (-o).toNat) * C + j
+
+/-- `diag_vector(x + y, o)`: invalid ⇒ `size_mismatch`; the result vector is constructed with the length of the diagonal,
+    a negative one ⇒ `invalid_dimension` -/
+def diagvOp (x y : Arr) (o : Int) : Except Err View :=
+  if x.dims != y.dims then .error .size_mismatch
+  else
+    let R := x.dims.getD 0 0
+    let C := x.dims.getD 1 0
+    let len := diagLen R C o
+    if len < 0 then .error .invalid_dimension
+    else
+      let e := exprVals .add x y
+      .ok ([len.toNat], (diagIdx C o len.toNat).map fun i => e.getD i 0)
+
+/-- `diag_matrix(x + y)`: the sum is evaluated into a vector first -/
+def diagmOp (x y : Arr) : Except Err View :=
+  if x.dims != y.dims then .error .size_mismatch
+  else
+    let e := exprVals .add x y
+    let n := e.length
+    .ok ([n, n], (List.range (n * n)).map fun t => if t / n = t % n then e.getD (t / n) 0 else 0)
+
+/-! ### where with expressions as mask and right-hand side; either_or -/
+
+/-- `t.where(m1 > m2) = x + y`: `where()` wants a valid mask of the extents of the target, `assign_conditional` a valid
+    right-hand side of those extents; an empty target is left alone -/
+def whereExpr (t m1 m2 x y : Arr) : Except Err Arr :=
+  if m1.dims != m2.dims then .error .size_mismatch
+  else if m1.dims != t.dims then .error .size_mismatch
+  else if x.dims != y.dims then .error .size_mismatch
+  else if x.dims != t.dims then .error .size_mismatch
+  else if t.isEmpty then .ok t
+  else
+    let mv := gtVals m1 m2
+    let e := exprVals .add x y
+    .ok { t with vals := (List.range t.vals.length).map fun i => if mv.getD i 0 > 0 then e.getD i 0 else t.vals.getD i 0 }
+
+/-- one conditional assignment of `Where::operator=(EitherOr)`: `t[m > 0 == sense] = x` -/
+def condAssign (t m x : Arr) (sense : Bool) : Except Err Arr :=
+  if x.dims != t.dims then .error .size_mismatch
+  else if t.isEmpty then .ok t
+  else .ok { t with vals := (List.range t.vals.length).map fun i =>
+      if (decide (m.vals.getD i 0 > 0)) == sense then x.vals.getD i 0 else t.vals.getD i 0 }
+
+/-- `t.where(m > 0) = either_or(c, d)`: the mask is tested by `where()`; then `d` is assigned where the mask is false, then
+    `c` where it is true, each with its own size test.  A wrongly sized `c` is therefore reported after `d` has been
+    stored: the partial effect is returned explicitly (as for `fill`).  `mIsT` / `cIsT`: the mask / `c` is the target
+    itself, so the second assignment sees it as the first one left it. -/
+def eitherOr (t m c d : Arr) (mIsT cIsT : Bool) : Arr × Option Err :=
+  if m.dims != t.dims then (t, some .size_mismatch)
+  else match condAssign t m d false with
+    | .error e => (t, some e)
+    | .ok t1 => match condAssign t1 (if mIsT then t1 else m) (if cIsT then t1 else c) true with
+      | .error e => (t1, some e)
+      | .ok t2 => (t2, none)
+
+/-! ### solve -/
+
+/-- `solve(A, b)`: a non-square `A` ⇒ `invalid_operation`, then a right-hand side with another number of rows ⇒
+    `size_mismatch`.  Of the success path only signed permutation matrices are modelled (`x = Aᵀ b`). -/
+def solveOp (a b : Arr) : Except Err View :=
+  let n := a.dims.getD 0 0
+  if n ≠ a.dims.getD 1 0 then .error .invalid_operation
+  else if n ≠ b.dims.getD 0 0 then .error .size_mismatch
+  else if a.isEmpty then .error .unmodelled
+  else if !isSignedPerm a then .error .unmodelled
+  else match b.dims with
+    | [_] => .ok ([n], (List.range n).map fun i => ((List.range n).map fun q => at2 a q i * b.vals.getD q 0).foldl (· + ·) 0)
+    | [_, m] => .ok ([n, m], (List.range (n * m)).map fun e =>
+        ((List.range n).map fun q => at2 a q (e / m) * at2 b q (e % m)).foldl (· + ·) 0)
+    | _ => .error .bad
+
+/-! ### FixedArray, SymmMatrix, TridiagMatrix -/
+
+/-- what a square special matrix keeps of an `n × n` expression: SymmMatrix (row-major lower) reads the lower triangle
+    and mirrors it, TridiagMatrix the three central diagonals -/
+def project (c : SCls) (n : Nat) (vals : List Int) : List Int :=
+  match c with
+  | .fix => vals
+  | .sym => (List.range (n * n)).map fun t => vals.getD (max (t / n) (t % n) * n + min (t / n) (t % n)) 0
+  | .tri => (List.range (n * n)).map fun t => if t / n ≤ t % n + 1 ∧ t % n ≤ t / n + 1 then vals.getD t 0 else 0
+
+/-- `SpecialMatrix(n)`, `SpecialMatrix(n, m)`, `resize(n)`, `resize(n, m)`: the two-extent form must be square, then a
+    negative extent ⇒ `invalid_dimension` (both before the old data is released) -/
+def squareExtent : List Int → Except Err Nat
+  | [n] => if n < 0 then .error .invalid_dimension else .ok n.toNat
+  | [n, m] => if n ≠ m then .error .invalid_dimension else if n < 0 then .error .invalid_dimension else .ok n.toNat
+  | _ => .error .bad
+
+def freshSpec (c : SCls) (seed : Int) (n : Nat) : SArr :=
+  ⟨c, ⟨true, [n, n], project c n (pattern seed (n * n))⟩⟩
+
+/-- `SpecialMatrix::operator=(Expression)` / `FixedArray::operator=(Expression)`: invalid ⇒ `size_mismatch`; an empty
+    square matrix is resized (`resize(d0, d1)`: not square ⇒ `invalid_dimension`); other extents ⇒ `size_mismatch` -/
+def assignS (t : SArr) (d : Option (List Nat)) (vals : List Int) : Except Err SArr :=
+  match d with
+  | none => .error .size_mismatch
+  | some d =>
+    match t.cls with
+    | .fix => if d != t.a.dims then .error .size_mismatch else .ok { t with a := { t.a with vals := vals } }
+    | c =>
+      if t.a.isEmpty then
+        (if d.getD 0 0 ≠ d.getD 1 0 then .error .invalid_dimension
+         else .ok { t with a := { t.a with dims := d, vals := project c (d.getD 0 0) vals } })
+      else if d != t.a.dims then .error .size_mismatch
+      else .ok { t with a := { t.a with vals := project c (d.getD 0 0) vals } }
+
+/-! ### active arrays: values and derivatives -/
+
+def Der.ins (v : Nat) (c : Int) : Der → Der
+  | [] => if c = 0 then [] else [(v, c)]
+  | (w, e) :: r =>
+    if v < w then (if c = 0 then (w, e) :: r else (v, c) :: (w, e) :: r)
+    else if v = w then (if e + c = 0 then r else (w, e + c) :: r)
+    else (w, e) :: Der.ins v c r
+
+/-- `ca·a + cb·b` -/
+def Der.lin (ca : Int) (a : Der) (cb : Int) (b : Der) : Der :=
+  b.foldl (fun acc p => Der.ins p.1 (cb * p.2) acc) (a.foldl (fun acc p => Der.ins p.1 (ca * p.2) acc) [])
+
+def Der.coef (d : Der) (v : Nat) : Int := (d.filter (·.1 = v)).foldl (fun s p => s + p.2) 0
+
+/-- derivative rows of `x op y` -/
+def exprDer (op : BinOp) (x y : AArr) : List Der :=
+  (List.range x.a.vals.length).map fun t =>
+    let dx := x.der.getD t []
+    let dy := y.der.getD t []
+    match op with
+    | .add => Der.lin 1 dx 1 dy
+    | .sub => Der.lin 1 dx (-1) dy
+    | .mul => Der.lin (y.a.vals.getD t 0) dx (x.a.vals.getD t 0) dy
+
+def freshAct (a : Arr) : AArr := { a := a, der := a.vals.map fun _ => [] }
+
+/-- assignment to an active array: the tests of `assign`; an empty target gets new storage (it is no longer the object
+    that was an input of the recording) -/
+def assignA (t : AArr) (d : Option (List Nat)) (vals : List Int) (der : List Der) : Except Err AArr :=
+  match assign t.a d vals with
+  | .error e => .error e
+  | .ok a => .ok (if t.a.isEmpty then { a := a, der := der } else { t with a := a, der := der })
+
+/-- value and derivative of the reduction of a non-empty list (sum, product, minval, maxval) -/
+def redListA (fn : RedFn) (vals : List Int) (der : List Der) : Int × Der :=
+  match fn with
+  | .product =>
+    (List.range vals.length).foldl (fun (acc : Int × Der) i =>
+      let v := vals.getD i 0
+      (acc.1 * v, Der.lin v acc.2 acc.1 (der.getD i []))) (1, [])
+  | .minval => let i := locList true vals; (vals.getD i 0, der.getD i [])
+  | .maxval => let i := locList false vals; (vals.getD i 0, der.getD i [])
+  | _ => (vals.foldl (· + ·) 0, der.foldl (fun acc d => Der.lin 1 acc 1 d) [])
+
+/-- `reduce_active`: as `reduceWhole`; `mean` and `norm2` of a valid expression have non-integer derivatives and are
+    outside the model -/
+def reduceWholeA (fn : RedFn) (d : Option (List Nat)) (vals : List Int) (der : List Der) : Except Err (Int × Der) :=
+  match d with
+  | none => .error .size_mismatch
+  | some d =>
+    if fn == .mean || fn == .norm2 || fn.isBool then .error .unmodelled
+    else if d.headD 0 == 0 then .ok (0, []) else .ok (redListA fn vals der)
+
+/-- `reduce_dimension` for an active matrix expression (rank 2): the tests of `reduceDim` -/
+def reduceDimA (fn : RedFn) (d : Option (List Nat)) (vals : List Int) (der : List Der) (dim : Int) :
+    Except Err (List Nat × List (Int × Der)) :=
+  match d with
+  | none => .error .size_mismatch
+  | some d =>
+    if d.headD 0 == 0 then .ok ([0], [])
+    else if dim < 0 ∨ dim ≥ 2 then .error .invalid_dimension
+    else if fn == .mean || fn == .norm2 || fn.isBool then .error .unmodelled
+    else
+      let od := d.eraseIdx dim.toNat
+      .ok (od, (List.range (prod od)).map fun t =>
+        let ix := stripIdx d dim.toNat t
+        redListA fn (ix.map fun i => vals.getD i 0) (ix.map fun i => der.getD i []))
 
 /-! ### the operations of the protocol -/
 
@@ -406,6 +771,46 @@ inductive Op
   | range (k : Nat) (b e : Int)
   | reshape (k : Nat) (r c : Int)
   | clear (k : Nat)
+  -- expressions that are not assignments of a plain element-wise expression (passive dynamic arrays)
+  | red (fn : RedFn) (i : Nat) (op : BinOp) (j : Nat)              -- fn(X op Y); all/any/count: fn(X > Y)
+  | redd (fn : RedFn) (i : Nat) (op : BinOp) (j : Nat) (dim : Int) -- fn(X op Y, dim)
+  | loc (isMin : Bool) (i : Nat) (op : BinOp) (j : Nat)            -- minloc / maxloc (X op Y)
+  | find (i j : Nat)                                               -- find(X > Y)
+  | dot (i j : Nat)                                                -- dot_product(X, Y)
+  | outer (k i j z : Nat)                                          -- T = outer_product(X + Y, Z)
+  | spread (k D i j : Nat) (n : Int)                               -- T = spread<D>(X + Y, n)
+  | diagv (i j : Nat) (o : Int)                                    -- diag_vector(X + Y, o)
+  | diagm (i j : Nat)                                              -- diag_matrix(X + Y)
+  | whrx (k m1 m2 i j : Nat)                                       -- T.where(M1 > M2) = X + Y
+  | eor (k m c d : Nat)                                            -- T.where(M > 0) = either_or(C, D)
+  | solve (k i : Nat)                                              -- solve(A, b)
+  -- FixedArray / SymmMatrix / TridiagMatrix
+  | newS (k : Nat) (cls : SCls) (seed : Int) (dims : List Int)
+  | resizeS (k : Nat) (seed : Int) (dims : List Int)
+  | clearS (k : Nat)
+  | linkS (k i : Nat)
+  | subdiagS (k : Nat) (ib ie : Int)
+  | diagF (k : Nat) (o : Int)
+  | asgS (k i : Nat) (op : BinOp) (j : Nat)     -- special target; operands: Real arrays, or special matrices of its class
+  | asgDS (k i : Nat) (op : BinOp) (j : Nat)    -- Real array target; operands: two special matrices, or (FixedArray, array)
+  | cpS (k i : Nat)
+  | cpDS (k i : Nat)
+  | compS (k : Nat) (op : BinOp) (i : Nat)
+  | whrF (k m i : Nat)
+  -- active arrays
+  | record
+  | newA (k : Nat) (seed : Int) (dims : List Int)
+  | resizeA (k : Nat) (seed : Int) (dims : List Int)
+  | resizedA (k : Nat) (seed : Int) (dims : List Int)
+  | clearA (k : Nat)
+  | asgA (k i : Nat) (op : BinOp) (j : Nat)
+  | cpA (k i : Nat)
+  | compA (k : Nat) (op : BinOp) (i : Nat)
+  | whrA (k m i : Nat)
+  | reda (k : Nat) (fn : RedFn) (i : Nat) (op : BinOp) (j : Nat)                -- T = fn(X op Y)  (every element)
+  | redda (k : Nat) (fn : RedFn) (i : Nat) (op : BinOp) (j : Nat) (dim : Int)   -- T = fn(X op Y, dim)
+  | diagva (k i j : Nat) (o : Int)                                              -- T = diag_vector(X + Y, o)
+  | jac (k i : Nat)                             -- d(elements of K) / d(variables of the input array I)
 deriving Repr, DecidableEq
 
 /-- what an operation shows besides the arrays involved: nothing, a view, or one element -/
@@ -413,6 +818,8 @@ inductive Out
   | none
   | view (v : View)
   | elem (x : Int)
+  | num (x : Num)
+  | nview (dims : List Nat) (vals : List Num)
 deriving Repr, DecidableEq
 
 abbrev Res := Except Err Out
@@ -433,9 +840,289 @@ def viewRes (s : State) : Except Err View → State × Res
   | .ok v => (s, .ok (.view v))
   | .error e => (s, .error e)
 
+
+/-! ### the new operation kinds -/
+
+def badOp (s : State) : State × Res := (s, .error .bad)
+
+def commitS (s : State) (k : Nat) : Except Err SArr → State × Res
+  | .ok a => (s.putS k a, .ok .none)
+  | .error e => (s, .error e)
+
+def commitA (s : State) (k : Nat) : Except Err AArr → State × Res
+  | .ok a => (s.putA k a, .ok .none)
+  | .error e => (s, .error e)
+
+/-- which function / operator combinations the driver offers -/
+def redOk (fn : RedFn) (op : BinOp) (x : Arr) : Bool :=
+  (fn.isBool || op != .sub) && (x.dbl || !(fn == .mean || fn == .norm2))
+
+def redRes (s : State) : Except Err RedOut → State × Res
+  | .ok (.scalar x) => (s, .ok (.num x))
+  | .ok (.arr d v) => (s, .ok (.nview d v))
+  | .error e => (s, .error e)
+
+def redVals (fn : RedFn) (op : BinOp) (x y : Arr) : List Int := if fn.isBool then gtVals x y else exprVals op x y
+
+def recArr (nv : Nat) (a : AArr) : AArr :=
+  { a with der := (List.range a.a.vals.length).map (fun i => [(nv + i, 1)]), inp := true,
+           vars := (List.range a.a.vals.length).map (nv + ·) }
+
+/-- `new_recording`: every element of every active array becomes a variable of the recording -/
+def recAll : Nat → List (Nat × AArr) → Nat × List (Nat × AArr)
+  | nv, [] => (nv, [])
+  | nv, (k, a) :: r => let q := recAll (nv + a.a.vals.length) r; (q.1, (k, recArr nv a) :: q.2)
+
+def whereAssignA (t m x : AArr) : Except Err AArr :=
+  match whereAssign t.a m.a x.a with
+  | .error e => .error e
+  | .ok a =>
+    let der := (List.range t.a.vals.length).map fun i => if (m.a.vals.getD i 0) > 0 then x.der.getD i [] else t.der.getD i []
+    .ok { t with a := a, der := der }
+
+def isNumFn (fn : RedFn) : Bool := !fn.isBool
+def isIntFn (fn : RedFn) : Bool := fn == .sum || fn == .product || fn == .minval || fn == .maxval
+
+/-- operands of an assignment to a special target `t`: two Real arrays of its rank, or two special matrices of its class -/
+def specOperand (s : State) (t : SArr) (i : Nat) : Option Arr :=
+  match s.get? i with
+  | some x => if x.dbl && x.rank == t.a.rank then some x else none
+  | none => match s.getS? i with
+    | some x => if x.cls == t.cls && t.cls != .fix then some x.a else none
+    | none => none
+
+def step2 (s : State) : Op → State × Res
+  | .red fn i op j => match s.get? i, s.get? j with
+    | some x, some y =>
+      if x.sameKind y && redOk fn op x then
+        (match reduceWhole fn (exprDims x y) (redVals fn op x y) with
+         | .ok v => (s, .ok (.num v))
+         | .error e => (s, .error e))
+      else badOp s
+    | _, _ => badOp s
+  | .redd fn i op j dim => match s.get? i, s.get? j with
+    | some x, some y =>
+      if x.sameKind y && redOk fn op x && !(fn.isBool && x.rank == 1) then
+        redRes s (reduceDim fn x.rank (exprDims x y) (redVals fn op x y) dim)
+      else badOp s
+    | _, _ => badOp s
+  | .loc isMin i op j => match s.get? i, s.get? j with
+    | some x, some y =>
+      if x.sameKind y && x.rank == 1 then
+        (match locOp isMin (exprDims x y) (exprVals op x y) with
+         | .ok v => (s, .ok (.elem v))
+         | .error e => (s, .error e))
+      else badOp s
+    | _, _ => badOp s
+  | .find i j => match s.get? i, s.get? j with
+    | some x, some y => if x.sameKind y && x.rank == 1 then viewRes s (findOp x y) else badOp s
+    | _, _ => badOp s
+  | .dot i j => match s.get? i, s.get? j with
+    | some x, some y =>
+      if x.sameKind y && x.rank == 1 then
+        (match dotOp x y with
+         | .ok v => (s, .ok (.elem v))
+         | .error e => (s, .error e))
+      else badOp s
+    | _, _ => badOp s
+  | .outer k i j z => match s.get? k, s.get? i, s.get? j, s.get? z with
+    | some t, some x, some y, some zz =>
+      if t.rank == 2 && x.rank == 1 && x.sameKind y && x.sameKind zz && t.dbl == x.dbl then commit s k (outerOp t x y zz) else badOp s
+    | _, _, _, _ => badOp s
+  | .spread k D i j n => match s.get? k, s.get? i, s.get? j with
+    | some t, some x, some y =>
+      if x.sameKind y && (x.rank == 1 || x.rank == 2) && t.rank == x.rank + 1 && t.dbl == x.dbl && D ≤ x.rank then
+        commit s k (spreadOp t x y D n)
+      else badOp s
+    | _, _, _ => badOp s
+  | .diagv i j o => match s.get? i, s.get? j with
+    | some x, some y => if x.sameKind y && x.rank == 2 then viewRes s (diagvOp x y o) else badOp s
+    | _, _ => badOp s
+  | .diagm i j => match s.get? i, s.get? j with
+    | some x, some y => if x.sameKind y && x.rank == 1 then viewRes s (diagmOp x y) else badOp s
+    | _, _ => badOp s
+  | .whrx k m1 m2 i j => match s.get? k, s.get? m1, s.get? m2, s.get? i, s.get? j with
+    | some t, some a1, some a2, some x, some y =>
+      if t.sameKind a1 && t.sameKind a2 && t.sameKind x && t.sameKind y then commit s k (whereExpr t a1 a2 x y) else badOp s
+    | _, _, _, _, _ => badOp s
+  | .eor k m c d => match s.get? k, s.get? m, s.get? c, s.get? d with
+    | some t, some mk, some cc, some dd =>
+      if t.sameKind mk && t.sameKind cc && t.sameKind dd then
+        match eitherOr t mk cc dd (m == k) (c == k) with
+        | (t', none) => (s.put k t', .ok .none)
+        | (t', some e) => (if t' = t then s else s.put k t', .error e)
+      else badOp s
+    | _, _, _, _ => badOp s
+  | .solve k i => match s.get? k, s.get? i with
+    | some a, some b =>
+      if a.dbl && b.dbl && a.rank == 2 && (b.rank == 1 || b.rank == 2) then viewRes s (solveOp a b) else badOp s
+    | _, _ => badOp s
+  -- ------------------------------------------------------------ FixedArray / SymmMatrix / TridiagMatrix
+  | .newS k cls seed dims =>
+    match cls with
+    | .fix =>
+      if dims = [3] ∨ dims = [2, 3] then
+        let d := dims.map Int.toNat
+        (s.putS k ⟨.fix, ⟨true, d, pattern seed (prod d)⟩⟩, .ok .none)
+      else badOp s
+    | c =>
+      if dims.length = 1 ∨ dims.length = 2 then
+        match squareExtent dims with
+        | .ok n => (s.putS k (freshSpec c seed n), .ok .none)
+        | .error e => (s, .error e)
+      else badOp s
+  | .resizeS k seed dims => match s.getS? k with
+    | some t =>
+      if t.cls != .fix && (dims.length = 1 ∨ dims.length = 2) then
+        match squareExtent dims with
+        | .ok n => (s.putS k (freshSpec t.cls seed n), .ok .none)
+        | .error e => (s, .error e)
+      else badOp s
+    | none => badOp s
+  | .clearS k => match s.getS? k with
+    | some t => if t.cls != .fix then (s.putS k ⟨t.cls, ⟨true, [0, 0], []⟩⟩, .ok .none) else badOp s
+    | none => badOp s
+  | .linkS k i => match s.getS? k, s.getS? i with
+    | some t, some x =>
+      if t.cls == x.cls && t.cls != .fix then
+        (if x.a.isEmpty then (s, .error .empty_array) else (s.putS k x, .ok .none))
+      else badOp s
+    | _, _ => badOp s
+  | .subdiagS k ib ie => match s.getS? k with
+    | some t => if t.a.rank == 2 then viewRes s (subDiag t.a ib ie) else badOp s
+    | none => badOp s
+  | .diagF k o => match s.getS? k with
+    | some t => if t.cls == .fix && t.a.rank == 2 then viewRes s (diagVector t.a o) else badOp s
+    | none => badOp s
+  | .asgS k i op j => match s.getS? k with
+    | some t =>
+      (match specOperand s t i, specOperand s t j with
+       | some x, some y =>
+         if (s.get? i).isSome == (s.get? j).isSome then commitS s k (assignS t (exprDims x y) (exprVals op x y)) else badOp s
+       | _, _ => badOp s)
+    | none => badOp s
+  | .asgDS k i op j => match s.get? k with
+    | some t =>
+      (match s.getS? i with
+       | some x =>
+         if x.cls == .fix then
+           (match s.get? j with
+            | some y => if t.dbl && y.dbl && t.rank == x.a.rank && y.rank == x.a.rank then
+                commit s k (assign t (exprDims x.a y) (exprVals op x.a y)) else badOp s
+            | none => badOp s)
+         else
+           (match s.getS? j with
+            | some y => if t.dbl && t.rank == 2 && x.cls == y.cls then
+                commit s k (assign t (exprDims x.a y.a) (exprVals op x.a y.a)) else badOp s
+            | none => badOp s)
+       | none => badOp s)
+    | none => badOp s
+  | .cpS k i => match s.getS? k with
+    | some t => (match specOperand s t i with
+      | some x => commitS s k (assignS t (some x.dims) x.vals)
+      | none => badOp s)
+    | none => badOp s
+  | .cpDS k i => match s.get? k, s.getS? i with
+    | some t, some x =>
+      if t.dbl && t.rank == 2 && x.cls != .fix then commit s k (assign t (some x.a.dims) x.a.vals) else badOp s
+    | _, _ => badOp s
+  | .compS k op i => match s.getS? k with
+    | some t => (match specOperand s t i with
+      | some x => commitS s k (assignS t (exprDims t.a x) (exprVals op t.a x))
+      | none => badOp s)
+    | none => badOp s
+  | .whrF k m i => match s.getS? k, s.get? m, s.get? i with
+    | some t, some mk, some x =>
+      if t.cls == .fix && mk.dbl && x.dbl && mk.rank == t.a.rank && x.rank == t.a.rank then
+        (match whereAssign t.a mk x with
+         | .ok a => (s.putS k { t with a := a }, .ok .none)
+         | .error e => (s, .error e))
+      else badOp s
+    | _, _, _ => badOp s
+  -- ------------------------------------------------------------ active arrays
+  | .record => let q := recAll s.nvar s.acts; ({ s with acts := q.2, nvar := q.1 }, .ok .none)
+  | .newA k seed dims =>
+    if dims.length = 1 ∨ dims.length = 2 then
+      match newArr true seed dims with
+      | .ok a => (s.putA k (freshAct a), .ok .none)
+      | .error e => (s, .error e)
+    else badOp s
+  | .resizeA k seed dims => match s.getA? k with
+    | some t => if dims.length = t.a.rank then
+        (match resizeInt t.a seed dims with
+         | .ok a => (s.putA k (freshAct a), .ok .none)
+         | .error e => (s, .error e))
+      else badOp s
+    | none => badOp s
+  | .resizedA k seed dims => match s.getA? k with
+    | some t => if dims.length = t.a.rank then
+        (match resizeDims t.a seed dims with
+         | .ok a => (s.putA k (freshAct a), .ok .none)
+         | .error e => (s, .error e))
+      else badOp s
+    | none => badOp s
+  | .clearA k => match s.getA? k with
+    | some t => (s.putA k (freshAct ⟨true, List.replicate t.a.rank 0, []⟩), .ok .none)
+    | none => badOp s
+  | .asgA k i op j => match s.getA? k, s.getA? i, s.getA? j with
+    | some t, some x, some y =>
+      if t.a.sameKind x.a && t.a.sameKind y.a then
+        commitA s k (assignA t (exprDims x.a y.a) (exprVals op x.a y.a) (exprDer op x y))
+      else badOp s
+    | _, _, _ => badOp s
+  | .cpA k i => match s.getA? k, s.getA? i with
+    | some t, some x => if t.a.sameKind x.a then commitA s k (assignA t (some x.a.dims) x.a.vals x.der) else badOp s
+    | _, _ => badOp s
+  | .compA k op i => match s.getA? k, s.getA? i with
+    | some t, some x =>
+      if t.a.sameKind x.a then commitA s k (assignA t (exprDims t.a x.a) (exprVals op t.a x.a) (exprDer op t x)) else badOp s
+    | _, _ => badOp s
+  | .whrA k m i => match s.getA? k, s.getA? m, s.getA? i with
+    | some t, some mk, some x =>
+      if t.a.sameKind x.a && t.a.sameKind mk.a then commitA s k (whereAssignA t mk x) else badOp s
+    | _, _, _ => badOp s
+  | .reda k fn i op j => match s.getA? k, s.getA? i, s.getA? j with
+    | some t, some x, some y =>
+      if x.a.sameKind y.a && isNumFn fn && op != .sub then
+        match reduceWholeA fn (exprDims x.a y.a) (exprVals op x.a y.a) (exprDer op x y) with
+        | .ok r => (s.putA k { t with a := { t.a with vals := t.a.vals.map fun _ => r.1 }, der := t.a.vals.map fun _ => r.2 }, .ok .none)
+        | .error e => (s, .error e)
+      else badOp s
+    | _, _, _ => badOp s
+  | .redda k fn i op j dim => match s.getA? k, s.getA? i, s.getA? j with
+    | some t, some x, some y =>
+      if t.a.rank == 1 && x.a.rank == 2 && y.a.rank == 2 && isIntFn fn && op == .add then
+        match reduceDimA fn (exprDims x.a y.a) (exprVals op x.a y.a) (exprDer op x y) dim with
+        | .error e => (s, .error e)
+        | .ok r => (match assign t.a (some r.1) (r.2.map (·.1)) with
+          | .error e => (s, .error e)
+          -- the temporary is move-assigned: the target may take over its storage, so it is no longer an input
+          | .ok a => (s.putA k { a := a, der := r.2.map (·.2) }, .ok .none))
+      else badOp s
+    | _, _, _ => badOp s
+  | .diagva k i j o => match s.getA? k, s.getA? i, s.getA? j with
+    | some t, some x, some y =>
+      if t.a.rank == 1 && x.a.rank == 2 && y.a.rank == 2 then
+        match diagvOp x.a y.a o with
+        | .error e => (s, .error e)
+        | .ok v =>
+          let ix := diagIdx (x.a.dims.getD 1 0) o (v.1.headD 0)
+          let dr := exprDer .add x y
+          (match assign t.a (some v.1) v.2 with
+           | .error e => (s, .error e)
+           | .ok a => (s.putA k { a := a, der := ix.map fun q => dr.getD q [] }, .ok .none))
+      else badOp s
+    | _, _, _ => badOp s
+  | .jac k i => match s.getA? k, s.getA? i with
+    | some t, some x =>
+      if !x.inp || x.a.isEmpty || t.a.isEmpty then (s, .error .unmodelled)
+      else (s, .ok (.view ([t.a.vals.length, x.vars.length], t.der.flatMap fun row => x.vars.map (Der.coef row))))
+    | _, _ => badOp s
+  | _ => badOp s
+
 def step (s : State) : Op → State × Res
   | .new k dbl seed dims =>
-    if dims.length = 1 ∨ dims.length = 2 then commit s k (newArr dbl seed dims) else (s, .error .bad)
+    if 1 ≤ dims.length ∧ dims.length ≤ 4 then commit s k (newArr dbl seed dims) else (s, .error .bad)
   | .resize k seed dims => match s.get? k with
     | some t => if dims.length = t.rank then commit s k (resizeInt t seed dims) else (s, .error .bad)
     | none => (s, .error .bad)
@@ -509,5 +1196,6 @@ def step (s : State) : Op → State × Res
   | .clear k => match s.get? k with
     | some t => (s.put k ⟨t.dbl, List.replicate t.rank 0, []⟩, .ok .none)
     | none => (s, .error .bad)
+  | o => step2 s o
 
 end Adept.Misuse
